@@ -23,7 +23,8 @@ from .resume import run_spec, ID_SETS
 # ======================================================================= C08-B
 def gen_plan_c08b(seed, tier, index):
     r = kernel.rng(seed, 'C08B', tier, index, 'plan')
-    mode = 'decode' if r.random() < 0.75 else 'ocr'
+    mode = 'decode' if r.random() < 0.7 else 'ocr'
+    many = mode == 'ocr' and r.random() < 0.7        # pages whose lines need several OCR batches
     d = gen_decoder_cfg(r, allow_filter=False)
     if r.random() < 0.7:
         d.update({'type': 'FAST-LOG-RAW', 'lm': True, 'carry': True, 'lm_scale': r.choice([1.0, 2.0, 3.0])})
@@ -34,9 +35,14 @@ def gen_plan_c08b(seed, tier, index):
     pages = []
     for pid in ids:
         nl = 1 if big else r.choice([1, 1, 2, 2, 3])
+        if many:
+            nl = r.randint(4, 14)
+        wide = r.choice([40, 55, 70])
         lines = []
         for _ in range(nl):
             b = r.randint(2, 8)
+            if many:
+                b = r.choice([r.randint(3, 12), r.randint(14, 30), wide, wide, r.randint(30, 70)])
             lines.append({'blocks': b, 'frames': b, 'seed': r.randrange(1 << 30), 'amb': r.choice([0.4, 0.7, 0.8])})
         pages.append({'id': pid, 'ext': '.png', 'lines': lines, 'regions': r.choice([1, 1, 2])})
     plan = {'world': 'pf8', 'mode': mode, 'with_images': False, 'cfg': cfg, 'pages': pages,
